@@ -458,7 +458,11 @@ class Term:
         if z3.is_true(more):
             return
         if not z3.is_false(more):
-            raise EngineLimit("kitty m flag undetermined on this path")
+            # a flag computed from symbolic data (e.g. a length comparison): fork on it
+            from .core import SymBool
+
+            if bool(SymBool(more)):
+                return
         keys, chunks = self.kitty_pending, self.kitty_chunks
         self.kitty_pending, self.kitty_chunks = None, []
         self.transmissions.append({"keys": keys, "chunks": chunks})
